@@ -986,7 +986,16 @@ func (e *Engine) dispatch(s *State, f *Frame, fn *ssa.Function, args []Value, bi
 			return nil
 		}
 		e.access(s, pp.Obj, true, site)
-		s.imprec = append(s.imprec, "sync.Pool.Get modelled as New() at "+site)
+		// Get hands back the most recently Put value when there is one (what the per-P private slot of the
+		// real pool does between garbage collections), otherwise New(); that New() may also be called while
+		// values are pooled is not explored
+		if po := s.heap[pp.Obj]; len(po.Pool) > 0 {
+			v := po.Pool[len(po.Pool)-1]
+			po.Pool = append([]Value{}, po.Pool[:len(po.Pool)-1]...)
+			s.notes = append(s.notes, "pool-reuse: sync.Pool.Get returns a value an earlier call put back at "+site)
+			set(v)
+			return nil
+		}
 		pool := e.load(s, pp, site).(*StructV)
 		var newFn *FuncV
 		for _, fld := range pool.F {
@@ -1003,7 +1012,35 @@ func (e *Engine) dispatch(s *State, f *Frame, fn *ssa.Function, args []Value, bi
 		pp := args[0].(*Ptr)
 		if pp.Obj != 0 {
 			e.access(s, pp.Obj, true, site)
+			po := s.heap[pp.Obj]
+			po.Pool = append(append([]Value{}, po.Pool...), args[1])
 		}
+	case "(*bytes.Buffer).WriteTo":
+		// drains the unread bytes into w (a *bytes.Buffer here) and resets the source
+		o, id := bufObj(s, args[0])
+		if o == nil {
+			s.panicd = "nil *bytes.Buffer at " + site
+			return nil
+		}
+		iv, ok := args[1].(*IfaceV)
+		var dst *Obj
+		var did int
+		if ok {
+			if dp, ok2 := iv.V.(*Ptr); ok2 {
+				dst, did = bufObj(s, dp)
+			}
+		}
+		if dst == nil {
+			panic(engineUnsupported("Buffer.WriteTo with a destination that is not a *bytes.Buffer"))
+		}
+		e.access(s, id, true, site)
+		e.access(s, did, true, site)
+		n := unreadLen(o)
+		dst.B = Concat2(dst.B, unread(o))
+		dst.Epoch++
+		o.R = o.B.Len
+		o.Epoch++
+		set(TupleV{n, nilErr})
 	case "unsafe.String":
 		panic(engineUnsupported("unsafe.String as a function"))
 	default:
